@@ -220,6 +220,7 @@ pub fn check(ctx: &mut Ctx, case: &Case) -> Result<(), String> {
         (None, None) => (None, false),
     };
     ctx.eval();
+    ctx.sample(&format!("{}/{:?}", if case.ctap { "ctap-assert" } else if case.register { "register" } else { "assert" }, case.hmac), || json!(case));
 
     if case.ctap {
         return check_ctap(ctx, case, auth, store, &creds, allow_ids);
